@@ -254,7 +254,15 @@ class UUID:
             self.uuid_bytes = uuid_bytes
             self.name = name
 
-            return self.register()
+            registered = self.register()
+            if len(registered.uuid_bytes) == len(uuid_bytes):
+                return registered
+
+            # A UUID of equal value but different width is registered: keep the
+            # width that was parsed, only borrow the name.
+            if self.name is None:
+                self.name = registered.name
+            return self
 
         raise InvalidArgumentError('only 2, 4 and 16 bytes are allowed')
 
